@@ -36,7 +36,7 @@ std::map<std::string, CommandFn>& Commands() {
 
 static FILE* g_out = nullptr;
 static long g_cmd_index = 0;
-static std::vector<uint8_t> g_last_out;  // output of the last W command
+std::vector<uint8_t> g_last_out;  // output of the last W command
 
 static void EmitLine(const std::string& s) {
   fwrite(s.data(), 1, s.size(), g_out);
@@ -109,6 +109,18 @@ static const TypeOps* Lookup(const std::string& tid, JsonOut& o) {
   return &it->second;
 }
 
+
+static void EmitKind(JsonOut& o, const char* key, const std::string& kind, bool bounded, uint64_t limit) {
+  o.key(key);
+  o.begin_obj();
+  o.kv_str("k", kind);
+  o.kv_bool("b", bounded);
+  o.kv_num("lim", bounded ? static_cast<long long>(limit < 1073741823ull ? limit : 1073741823ull) : 1073741823ll);
+  o.end_obj();
+}
+static void EmitRK(JsonOut& o, const Json& rkj) { ReaderSpec s = ParseReaderKind(rkj); EmitKind(o, "rk", s.kind, s.bounded, s.limit); }
+static void EmitWK(JsonOut& o, const Json& wkj) { Json none; WriterSpec s = ParseWriterKind(wkj, none); EmitKind(o, "wk", s.kind, s.bounded, s.limit); }
+
 static void EmitLedger(JsonOut& o) {
   o.key("ledger");
   o.begin_obj();
@@ -130,8 +142,21 @@ static void EmitWriterState(DynWriter& w, JsonOut& o) {
 }
 
 static void SetupHandles(const Json& cmd, DynReader& r) {
+  if (cmd.at("hmode").is_str() && cmd.at("hmode").s == "affine") r.affine_handles = true;
   if (cmd.has("handles"))
     for (auto& kv : cmd.at("handles").o) r.handle_table[atoll(kv.first.c_str())] = kv.second.num();
+}
+static void EmitHandleTable(const Json& cmd, JsonOut& o) {
+  o.key("ht");
+  o.begin_arr();
+  if (cmd.has("handles"))
+    for (auto& kv : cmd.at("handles").o) {
+      o.begin_arr();
+      o.word(static_cast<unsigned long long>(atoll(kv.first.c_str())), 8);
+      o.word(static_cast<unsigned long long>(kv.second.num()), 8);
+      o.end_arr();
+    }
+  o.end_arr();
 }
 
 static std::vector<uint8_t> ResolveSrc(const Json& cmd) {
@@ -163,12 +188,13 @@ static std::vector<uint8_t> ResolveSrc(const Json& cmd) {
 static void CmdW(const Json& cmd, JsonOut& o) {
   WriterSpec spec = ParseWriterKind(cmd.at("wk"), cmd.at("cap"));
   o.kv_str("e", "W");
-  o.key("wk"); WriteJson(cmd.at("wk"), o);
+  EmitWK(o, cmd.at("wk"));
   if (spec.has_cap) o.kv_num("cap", static_cast<long long>(spec.cap));
   {
     DynWriter w(spec);
     if (cmd.has("nolog")) w.log = false;
     if (cmd.has("refs")) for (auto& r : cmd.at("refs").a) w.refs.push_back(static_cast<int64_t>(WordOf(r)));
+    if (cmd.at("hmode").is_str() && cmd.at("hmode").s == "affine") w.affine_handles = true;
     if (cmd.has("fault")) {
       w.SetFault(static_cast<long>(cmd.at("fault").at("k").num()), static_cast<int>(cmd.at("fault").at("e").num(16)));
       o.key("fault"); WriteJson(cmd.at("fault"), o);
@@ -195,10 +221,11 @@ static void CmdR(const Json& cmd, JsonOut& o) {
   ReaderSpec spec = ParseReaderKind(cmd.at("rk"));
   std::vector<uint8_t> src = ResolveSrc(cmd);
   o.kv_str("e", "R");
-  o.key("rk"); WriteJson(cmd.at("rk"), o);
+  EmitRK(o, cmd.at("rk"));
   o.key("src"); o.bytes(src.data(), src.size());
   if (cmd.has("cut")) { o.key("cut"); WriteJson(cmd.at("cut"), o); }
   if (cmd.has("tag")) { o.key("tag"); WriteJson(cmd.at("tag"), o); }
+  EmitHandleTable(cmd, o);
   {
     DynReader r(spec, src.data(), src.size());
     if (cmd.has("nolog")) r.log = false;
@@ -245,7 +272,7 @@ static void CmdRCuts(const Json& cmd, JsonOut& o) {
     for (auto& rkj : cmd.at("rks").a) {
       ReaderSpec base = ParseReaderKind(rkj);
       o.begin_obj();
-      o.key("rk"); WriteJson(rkj, o);
+      EmitRK(o, rkj);
       o.key("cuts");
       o.begin_arr();
       for (size_t k = 0; k < src.size(); k++) {
@@ -282,7 +309,7 @@ static void CmdRFaults(const Json& cmd, JsonOut& o) {
   ReaderSpec spec = ParseReaderKind(cmd.at("rk"));
   o.kv_str("e", "RF");
   o.kv_str("tid", tid);
-  o.key("rk"); WriteJson(cmd.at("rk"), o);
+  EmitRK(o, cmd.at("rk"));
   o.key("src"); o.bytes(src.data(), src.size());
   const TypeOps* ops = Lookup(tid, o);
   if (!ops) return;
@@ -333,7 +360,7 @@ static void CmdWFaults(const Json& cmd, JsonOut& o) {
   WriterSpec spec = ParseWriterKind(cmd.at("wk"), cmd.at("cap"));
   o.kv_str("e", "WF");
   o.kv_str("tid", tid);
-  o.key("wk"); WriteJson(cmd.at("wk"), o);
+  EmitWK(o, cmd.at("wk"));
   const TypeOps* ops = Lookup(tid, o);
   if (!ops) return;
   size_t ncalls = 0;
@@ -431,7 +458,8 @@ static void CmdWCaps(const Json& cmd, JsonOut& o) {
       Json parsed;
       JsonParser(tmp.s).Parse(&parsed);
       o.begin_obj();
-      o.key("wk"); WriteJson(wkj, o);
+      EmitKind(o, "wk", spec.kind, spec.bounded, spec.limit);
+      o.kv_bool("limmode", limit_mode);
       o.kv_num("cap", static_cast<long long>(cap));
       o.kv_num("st", parsed.at("st").num());
       EmitWriterState(w, o);
@@ -507,11 +535,24 @@ int main(int argc, char** argv) {
 
   std::ifstream in(in_path);
   std::string line;
+  std::string pending_w;
   long idx = -1;
   while (std::getline(in, line)) {
     if (line.empty()) continue;
     idx++;
-    if (idx < skip) continue;
+    if (idx < skip) {
+      // remember the last W command so that "src":"last" still works after a restart
+      if (line.find("\"c\":\"w\"") != std::string::npos) pending_w = line;
+      else if (line.find("\"c\":\"reset\"") != std::string::npos) pending_w.clear();
+      continue;
+    }
+    if (!pending_w.empty()) {
+      Json wcmd;
+      JsonOut sink;
+      sink.begin_obj();
+      if (JsonParser(pending_w).Parse(&wcmd)) Commands()["w"](wcmd, sink);
+      pending_w.clear();
+    }
     g_cmd_index = idx;
     Json cmd;
     JsonOut o;
